@@ -73,7 +73,8 @@ theorem C19_restore_stopall (env : Env) (cs : List (Nat × PSpec)) (ps : List Na
 
 /-- **conventions agree**: on the object a constructed patcher installs - DEFAULT mock, wrapped function /
     classmethod / staticmethod, wrapped bound method or attribute-rejecting callable, callable object, object made
-    by new_callable - reached through a module, a class or an instance, every one of the four calling conventions
+    by new_callable, `@asynq()` function (which binds like the function it wraps) - reached through a module, a class or an
+    instance, every one of the four calling conventions
     runs the replacement exactly once with the descriptor prefix followed by the caller's arguments and keyword
     arguments, and hands back what the replacement returned or raised; hence all four agree -/
 theorem C19_conventions_agree (p n : Nat) (s : PSpec) (pt : Patcher) (d : Defaults) (hc : construct d p s = .ok pt) (via : Via)
@@ -100,8 +101,18 @@ theorem C19_enter_installs (env : Env) (st : State) (s : PSpec) (pt : Patcher) (
   · unfold enter; simp [h, upd]
   · unfold enter; simp [h]
   · obtain ⟨t, repl, cr, an, vo, bh, sl, sh⟩ := s
-    rcases repl with _ | _ | _ | _ | _ | _ | _ | _ | (_ | _) <;>
+    rcases repl with _ | _ | _ | _ | _ | _ | _ | _ | (_ | _) | (_ | _ | _) <;>
       simp [installedObj, maybeWrapNew, freshObj, Shape.callable, Repl.desc?, Repl.isCallable, Repl.acceptsAttrs]
+
+/-- **which object is installed**, for every replacement kind: a MagicMock / the factory's product made at this very
+    entry (DEFAULT / new_callable), the `asynq(sync_fn=new)(new)` pair (function, classmethod, staticmethod object),
+    the `Wrapper()` (bound method, callable that takes no attributes), and the caller's object ITSELF for a callable
+    object, an `@asynq()` function and a non-callable - `expectedTok` is the table the observer `spec` checks every
+    `__enter__` / `start()` of the implementation against -/
+theorem C19_installed_object (p n : Nat) (s : PSpec) (pt : Patcher) (d : Defaults) (hc : construct d p s = .ok pt) :
+    (installedObj pt p n).tok = expectedTok p n s := by
+  rw [construct_inv d p s pt hc]
+  exact tok_installed p n s
 
 /-- **non-callable as is**: a replacement that is not callable is handed to `_patch` unchanged, installed as that
     very object (the patcher's own `new`, or the object it shares with another patcher), and nothing is attached
@@ -154,8 +165,8 @@ theorem C19_exception_propagates (env : Env) (st : State) (pt : Patcher) (p : Na
   unfold exit
   simp [h, upd]
 
-/-- **C19 as a whole** (for histories that do not use new_callable together with asynq's default autospec - see
-    the counterexample below): for every environment and every history of operations, well nested or not, the
+/-- **C19 as a whole, for arbitrary signature defaults**: for every environment and every history of operations (well
+    nested or not) in which no patcher uses new_callable while the `autospec` that reaches `_patch` is not None, the
     observations of the model are accepted by the observer `spec` - the same Boolean function the check evaluates
     on the observations of the real implementation. -/
 theorem C19_spec_holds_partial (env : Env) (ops : List Op)
@@ -174,13 +185,21 @@ theorem C19_spec_holds_if_autospec_defaults_none (env : Env) (ops : List Op)
   intro op _
   cases op <;> simp [Op.constructible, PSpec.constructible, PSpec.autospecIsNone, h1, h2]
 
-/-- **genuine defect**: `asynq.mock.patch(target, new_callable=f)` cannot even be constructed, because
-    `patch` / `patch.object` default `autospec=False` where unittest.mock expects `None`, and `_patch.__init__`
-    rejects `new_callable` together with any `autospec is not None`.  The property (which lists new_callable among
-    the replacement kinds) is false of the code; witness: one module function, one such patcher. -/
-theorem C19_new_callable_counterexample :
-    spec { targets := [{ kind := .asyncFn .func, host := .loc, via := .plain }] }
-      (run { targets := [{ kind := .asyncFn .func, host := .loc, via := .plain }] }
+/-- **C19 as a whole, for the code as it is** (`Defaults.current`: both signatures default `autospec=None`, which the
+    harness re-reads from the code on every run): for EVERY environment of targets and EVERY history of operations,
+    well nested or not, the observer accepts the observations of the model.  No hypothesis on the history. -/
+theorem C19_spec_holds (env : Env) (ops : List Op) (hd : env.defaults = Defaults.current) :
+    spec env (run env ops) = true :=
+  C19_spec_holds_if_autospec_defaults_none env ops (by rw [hd]; rfl) (by rw [hd]; rfl)
+
+/-- **necessity of the hypothesis of `C19_spec_holds_partial`** (a regression witness, NOT a statement about today's
+    tree): with the signatures of asynq 1.6 (`autospec=False` in `patch` / `patch.object`, repaired by 60e77e0)
+    `asynq.mock.patch(target, new_callable=f)` cannot even be constructed - `_patch.__init__` rejects `new_callable`
+    together with any `autospec is not None` - and the observer rejects the history; witness: one module function,
+    one such patcher. -/
+theorem C19_new_callable_asynq16_counterexample :
+    spec { targets := [{ kind := .asyncFn .func, host := .loc, via := .plain }], defaults := Defaults.asynq16 }
+      (run { targets := [{ kind := .asyncFn .func, host := .loc, via := .plain }], defaults := Defaults.asynq16 }
         [.construct 0 { target := 0, repl := .newCallable true, create := false, autospecNone := false, viaObject := false,
                         behav := .ret 1 }])
       = false := by
@@ -301,6 +320,77 @@ theorem C19_rebind_touches_no_host (env : Env) (st : State) (s t : Nat) :
   cases st.skip with
   | none => exact ⟨rfl, rfl, rfl, rfl, rfl⟩
   | some qd => exact ⟨rfl, rfl, rfl, rfl, rfl⟩
+
+/-- **a patch ends where it was entered, whatever its name means by then**: after any disciplined history `pre`, a
+    block whose `__enter__` succeeded, inside which the owner named in ANY dotted path is re-bound (`rebind s t` is
+    arbitrary - also the patcher's own name), puts back the store it found: `__exit__` restores the host the patch went
+    into, not the one the name refers to now.  (Uses `C19_rebind_touches_no_host`.) -/
+theorem C19_block_restores_across_rebind (env : Env) (pre : List Op) (p s t : Nat) (exc : Bool)
+    (hd : disciplined env (pre ++ [.enter p]) = true)
+    (hsk : (final env pre).skip = none)
+    (hent : (final env (pre ++ [.enter p])).skip = none) :
+    (final env (pre ++ [.enter p, .rebind s t, .exit p exc])).store = (final env pre).store := by
+  have key : ∀ st : State, st.skip = none →
+      (step env st (.rebind s t)).1.stack = st.stack ∧ (step env st (.rebind s t)).1.skip = none := by
+    intro st h
+    unfold step
+    simp only [h]
+    exact ⟨trivial, trivial⟩
+  have hd' : disciplined env (pre ++ .enter p :: [.rebind s t]) = true := by
+    simp only [disciplined, disciplinedFrom_append, disciplinedFrom, Bool.and_eq_true, Bool.and_true] at hd ⊢
+    exact ⟨hd.1, hd.2, by simp [opOk]⟩
+  have hfin : final env (pre ++ .enter p :: [.rebind s t]) =
+      (step env (final env (pre ++ [.enter p])) (.rebind s t)).1 := by
+    simp only [final, finalFrom_append, finalFrom, observe_fst]
+  have := C19_block_restores env pre [.rebind s t] p exc hd' hsk hent
+    (by rw [hfin]; exact (key _ hent).1) (by rw [hfin]; exact (key _ hent).2)
+  simpa using this
+
+/-- **an `@asynq()` function as the replacement** (`patch(target, other_async_fn)`): `_maybe_wrap_new` hands it on
+    unchanged (it is not `inspect.isfunction`, it is callable and takes attributes), so the caller's object ITSELF is
+    installed; unlike a plain callable object it has `__get__`, so it BINDS like the function it wraps - the instance
+    in front when a method is reached through an instance, the class for an `@asynq()` classmethod, nothing through
+    a module - and every convention runs it exactly once with that prefix and the caller's arguments -/
+theorem C19_asynq_function_replacement (p n : Nat) (s : PSpec) (pt : Patcher) (dflt : Defaults) (d : Desc)
+    (hr : s.repl = .asyncFn d) (hc : construct dflt p s = .ok pt) (via : Via) (c : Conv) (args : List Nat)
+    (kw : List (Nat × Nat)) :
+    (installedObj pt p n).tok = { id := s.newId p, tag := .asis } ∧
+    conv (installedObj pt p n) via c args kw =
+      { out := s.behav.out, calls := [{ callee := s.newId p, args := (bindPrefix d via).getD [] ++ args, kw := kw }] } := by
+  have hpre : expectedPrefix s.repl via = some ((bindPrefix d via).getD []) := by rw [hr]; rfl
+  obtain ⟨_, h2, h3⟩ := C19_conventions_agree p n s pt dflt hc via args kw _ hpre c c
+  refine ⟨?_, ?_⟩
+  · rw [C19_installed_object p n s pt dflt hc]; simp [expectedTok, hr]
+  · have hcal : expectedCallee p s (installedObj pt p n).tok = s.newId p := by simp [expectedCallee, hr]
+    rw [hcal] at h3
+    cases hcv : conv (installedObj pt p n) via c args kw with
+    | mk o cs => rw [hcv] at h2 h3; simp only [] at h2 h3; rw [h2, h3]
+
+/-! ### the duplicate-freeness hypotheses of the two family theorems are necessary -/
+
+/-- `C19_restore_nested_blocks` needs `Nodup`: entering ONE patcher twice (the second `__enter__` overwrites the
+    `temp_original` of the first) and leaving twice leaves the replacement behind - the second `__exit__` raises
+    AttributeError - and such a history is not well nested -/
+theorem C19_nested_blocks_nodup_necessary :
+    let env : Env := { targets := [{ kind := .asyncFn .func, host := .loc, via := .plain }] }
+    let s : PSpec := { target := 0, repl := .default, create := false, autospecNone := false, viaObject := false,
+                       behav := .ret 5 }
+    let ops : List Op := [.construct 0 s] ++ ([(0, false), (0, false)].map fun b => Op.enter b.1) ++
+      ([(0, false), (0, false)].reverse.map fun b => Op.exit b.1 b.2)
+    ((final env ops).store 0).map Obj.tok = some { id := .made 0 0, tag := .mock } ∧
+      (final env ops).store 0 ≠ env.initStore 0 ∧ wellNested env ops = false ∧
+      ((run env ops).map (·.res)).getLast? = some (.raised .attributeError) := by
+  decide
+
+/-- `C19_restore_stopall` needs `Nodup`: starting ONE patcher twice puts it into `_active_patches` twice; `stopall()`
+    stops it once successfully, the second `stop()` raises out of `stopall()`, and the replacement stays -/
+theorem C19_stopall_nodup_necessary :
+    let env : Env := { targets := [{ kind := .asyncFn .func, host := .loc, via := .plain }] }
+    let s : PSpec := { target := 0, repl := .default, create := false, autospecNone := false, viaObject := false,
+                       behav := .ret 5 }
+    let ops : List Op := [.construct 0 s] ++ [0, 0].map Op.start ++ [Op.stopall]
+    (final env ops).store 0 ≠ env.initStore 0 ∧ wellNested env ops = false := by
+  decide
 
 /-! non-vacuity -/
 section
@@ -476,6 +566,117 @@ example : spec env3
      { op := .exit 1 false, res := .exited false, peeks := [some tG] },
      { op := .call 0 [1] [], res := .called [okG, noAttr, noAttr, noAttr], peeks := [some tG] }] = false := by
   decide
+
+/-! ### what `__enter__` installs is checked for EVERY replacement kind (audit item B4) -/
+private def envA : Env := { targets := [{ kind := .asyncFn .func, host := .loc, via := .plain }] }
+private def spA (r : Repl) (b : Behav := .ret 5) : PSpec :=
+  { target := 0, repl := r, create := false, autospecNone := false, viaObject := false, behav := b }
+private def obC (r : Repl) (b : Behav := .ret 5) : Obs := { op := .construct 0 (spA r b), res := .made, peeks := [tO0] }
+private def obE (o : Tok) (store : Option Tok) : Obs := { op := .enter 0, res := .entered o, peeks := [store] }
+private def obX (store : Option Tok) : Obs := { op := .exit 0 false, res := .exited false, peeks := [store] }
+private def tOrig : Tok := { id := .orig 0, tag := .orig }
+private def tGiven : Tok := { id := .given 0, tag := .asis }
+
+/-- REJECTED: an inert patch - DEFAULT replacement, nothing installed, `__enter__` "returns" the original - even when
+    every call inside happens to behave like the declared replacement -/
+example : specClause envA
+    [obC .default (.ret 7000), obE tOrig tO0,
+     { op := .call 0 [1] [], res := .called (List.replicate 4 { out := .ok 7000, calls := [{ callee := .orig 0, args := [1], kw := [] }] }),
+       peeks := [tO0] },
+     obX tO0] = "installed-object@enter" := by decide
+/-- REJECTED: the original left in place for a callable-object replacement, with no call inside the block -/
+example : specClause envA [obC .callobj, obE tOrig tO0, obX tO0] = "installed-object@enter" := by decide
+/-- REJECTED: a callable object installed as a copy / wrapper instead of as it is -/
+example : specClause envA
+    [obC .callobj, obE { id := .made 0 0, tag := .wrapper } (some { id := .made 0 0, tag := .wrapper }), obX tO0]
+    = "installed-object@enter" := by decide
+/-- REJECTED: a plain function installed raw (no `asynq(sync_fn=new)(new)` pair, hence no `.asynq`) -/
+example : specClause envA [obC .func, obE tGiven (some tGiven), obX tO0] = "installed-object@enter" := by decide
+/-- REJECTED: an object nobody made as the product of new_callable (callable or not) -/
+example : specClause envA
+    [obC (.newCallable false), obE { id := .unknown, tag := .asis } (some { id := .unknown, tag := .asis }), obX tO0]
+    = "installed-object@enter" := by decide
+example : specClause envA
+    [obC (.newCallable true), obE { id := .unknown, tag := .asis } (some { id := .unknown, tag := .asis }), obX tO0]
+    = "installed-object@enter" := by decide
+/-- REJECTED: a bound method installed without the `Wrapper()`; a non-callable that is copied -/
+example : specClause envA [obC .bound, obE tGiven (some tGiven), obX tO0] = "installed-object@enter" := by decide
+example : specClause envA
+    [obC .value, obE { id := .made 0 0, tag := .fresh } (some { id := .made 0 0, tag := .fresh }), obX tO0]
+    = "noncallable-as-is@enter" := by decide
+/-- REJECTED: the second use of a DEFAULT patcher shows the MagicMock of the first use again (a new one is due) -/
+example : specClause envA
+    [obC .default, obE { id := .made 0 0, tag := .mock } (some { id := .made 0 0, tag := .mock }), obX tO0,
+     obE { id := .made 0 0, tag := .mock } (some { id := .made 0 0, tag := .mock }), obX tO0]
+    = "installed-object@enter" := by decide
+/-- ACCEPTED: the right object for each kind (the same histories with what the model installs) -/
+example : ∀ r ∈ [Repl.default, .func, .cmobj, .smobj, .bound, .callobj, .sealed, .value, .newCallable true,
+                 .newCallable false, .asyncFn .func, .asyncFn .cm, .asyncFn .sm],
+    spec envA (run envA [.construct 0 (spA r), .enter 0, .call 0 [1] [(0, 2)], .exit 0 false, .enter 0, .exit 0 true])
+      = true := by decide
+/-- the same for `start()` -/
+example : specClause envA
+    [obC .callobj, { op := .start 0, res := .entered tOrig, peeks := [tO0] }] = "installed-object@start" := by decide
+
+/-! ### an `@asynq()` function as the replacement (audit item A8) -/
+private def spAF : PSpec := { sp 0 (.asyncFn .func) with behav := .ret 5 }
+/-- on a method reached through an instance it is installed as it is and gets the INSTANCE in front, under all four
+    conventions (a callable object in the same place gets nothing in front) -/
+example : (run env2 [.construct 0 spAF, .enter 0, .call 0 [1] [(0, 2)], .exit 0 false]).map (·.res) =
+    [.made, .entered { id := .given 0, tag := .asis },
+     .called (List.replicate 4 { out := .ok 5, calls := [{ callee := .given 0, args := [instTok, 1], kw := [(0, 2)] }] }),
+     .exited false] := by decide
+example : ((run env2 [.construct 0 (sp 0 .callobj), .enter 0, .call 0 [1] []]).getD 2 default).res =
+    .called (List.replicate 4 { out := .ok 5, calls := [{ callee := .given 0, args := [1], kw := [] }] }) := by decide
+/-- the observer REJECTS an `@asynq()` replacement that is called without the instance -/
+example : spec env2
+    [{ op := .construct 0 spAF, res := .made, peeks := [tO0, tO1] },
+     { op := .enter 0, res := .entered { id := .given 0, tag := .asis }, peeks := [some { id := .given 0, tag := .asis }, tO1] },
+     { op := .call 0 [1] [],
+       res := .called (List.replicate 4 { out := .ok 5, calls := [{ callee := .given 0, args := [1], kw := [] }] }),
+       peeks := [some { id := .given 0, tag := .asis }, tO1] }] = false := by decide
+
+/-! ### the family theorems and the name-resolution theorems are not vacuous (their hypotheses are satisfiable) -/
+private def envB : Env := { targets := [{ kind := .asyncFn .func, host := .loc, via := .plain },
+                                        { kind := .asyncFn .func, host := .inherited, via := .plain }] }
+private def spB (t : Nat) (r : Repl) : PSpec :=
+  { target := t, repl := r, create := false, autospecNone := false, viaObject := false, behav := .ret 5 }
+/-- `C19_block_restores`: an outer patch is open; the block's body has calls and a nested start/stop; left by exception -/
+private def preB : List Op := [.construct 0 (spB 0 .default), .construct 1 (spB 0 .func), .construct 2 (spB 0 .bound), .enter 0]
+private def bodyB : List Op := [.call 0 [1] [], .start 2, .call 0 [] [], .stop 2]
+example : (final envB (preB ++ .enter 1 :: bodyB ++ [.exit 1 true])).store = (final envB preB).store :=
+  C19_block_restores envB preB bodyB 1 true (by decide) (by decide) (by decide) (by decide) (by decide)
+/-- ... and the store it restores is not the initial one, nor the one inside the block -/
+example : ((final envB preB).store 0).map Obj.tok = some { id := .made 0 0, tag := .mock } ∧
+    ((final envB (preB ++ .enter 1 :: bodyB)).store 0).map Obj.tok = some { id := .made 1 0, tag := .pair } := by decide
+/-- `C19_block_restores_across_rebind` -/
+example : (final env2 ([.construct 0 (sp 0 .func)] ++ [.enter 0, .rebind 0 1, .exit 0 true])).store =
+    (final env2 [.construct 0 (sp 0 .func)]).store :=
+  C19_block_restores_across_rebind env2 [.construct 0 (sp 0 .func)] 0 0 1 true (by decide) (by decide) (by decide)
+/-- `C19_restore_nested_blocks`: three blocks on two targets (one of them inherited), mixed exits -/
+private def csB : List (Nat × PSpec) := [(0, spB 0 .default), (1, spB 0 .func), (2, spB 1 .bound)]
+example : (final envB ((csB.map fun c => Op.construct c.1 c.2) ++ [.enter 0, .enter 2, .enter 1, .exit 1 true, .exit 2 false,
+    .exit 0 true])).store = envB.initStore :=
+  (C19_restore_nested_blocks envB csB [(0, true), (2, false), (1, true)] (by decide)).2
+/-- `C19_restore_stopall`: two started patches of one target -/
+example : (final envB ((csB.map fun c => Op.construct c.1 c.2) ++ [.start 1, .start 0] ++ [.stopall])).active = [] :=
+  (C19_restore_stopall envB csB [1, 0] (by decide)).2.2
+/-- `C19_path_resolved_at_every_enter` / `_start`, `C19_object_target_fixed`, `C19_calls_through_name_reach_replacement`:
+    a state with a string patcher and a `patch.object` patcher on an inherited method, the name re-bound -/
+private def stB : State := final envB [.construct 0 (spB 1 .func), .construct 1 { spB 1 .callobj with viaObject := true },
+                                       .rebind 1 0]
+private def ptB (p : Nat) : Patcher := (stB.patchers p).getD default
+example : ((step envB stB (.enter 0)).1.store 0).map Obj.tok = some { id := .made 0 0, tag := .pair } :=
+  congrArg (Option.map Obj.tok)
+    (C19_path_resolved_at_every_enter envB stB 0 (ptB 0) (by decide) (by decide) (by decide) (by decide)).1
+example : ((step envB stB (.start 0)).1.store 0).map Obj.tok = some { id := .made 0 0, tag := .pair } :=
+  congrArg (Option.map Obj.tok)
+    (C19_path_resolved_at_every_start envB stB 0 (ptB 0) (by decide) (by decide) (by decide) (by decide)).1
+example : ((step envB stB (.enter 1)).1.store 1).map Obj.tok = some { id := .given 1, tag := .asis } :=
+  congrArg (Option.map Obj.tok)
+    (C19_object_target_fixed envB stB 1 (ptB 1) (by decide) (by decide) (by decide) (by decide)).1.1
+example := C19_calls_through_name_reach_replacement envB stB 0 (ptB 0) (by decide) (by decide) (by decide) (by decide)
+  [1, 2] [(0, 3)]
 end
 
 end AsynqModel.Mock
@@ -484,18 +685,36 @@ end AsynqModel.Mock
 namespace AsynqModel.Mock.EnterFail
 
 /-- for EVERY product of `new_callable` - a callable that takes attributes, a non-callable (installed as is), a
-    callable that takes no attributes (`__enter__` fails, after the repair it undoes the patch first) - and every
-    activation style: if the block runs the product is in place, and the original is back afterwards -/
+    callable that takes no attributes (`__enter__` fails; the `except` clause of `_PatchAsync.__enter__` undoes the patch
+    first) - and every activation style, each with its own protocol for a failing `__enter__` (PEP 343 `with`,
+    ExitStack of the decorators, `start()` registering only after success, `stop()` / `stopall()` seeing only registered
+    patchers): if the block runs the product is in place, and the original is back afterwards.
+    (A finite table: 3 products x 5 styles, closed by evaluation of the protocol model.) -/
 theorem C19_enter_failure_restores (prod : Product) (style : Style) :
-    spec (run prod style) = true ∧ (run prod style).after = .orig ∧
-      ((run prod style).entered = true ↔ prod ≠ .rejecting) := by
+    spec (runCurrent prod style) = true ∧ (runCurrent prod style).after = Held.orig ∧
+      ((runCurrent prod style).entered = true ↔ prod ≠ .rejecting) := by
   cases prod <;> cases style <;> decide
 
+/-- **the `except` clause is necessary, in every style**: without it (`undo := false`, the code before 06c0ef8) an
+    attribute-rejecting product stays installed for good - no style calls `__exit__` after a failed `__enter__`,
+    `stop()` answers None, `stopall()` does not see the patcher - and the observer rejects the outcome -/
+theorem C19_enter_failure_needs_undo (style : Style) :
+    (run false .rejecting style).after = Held.product ∧ spec (run false .rejecting style) = false ∧
+      specClause (run false .rejecting style) = "enter-failed-original-not-restored" := by
+  cases style <;> decide
+
+/-- ... and it changes nothing for products the wrappers can be attached to -/
+theorem C19_enter_undo_only_matters_on_failure (prod : Product) (style : Style) (h : prod ≠ .rejecting) :
+    run false prod style = run true prod style := by
+  cases prod <;> cases style <;> first | rfl | exact absurd rfl h
+
 /-! non-vacuity: the observer of this family accepts the good outcome, rejects a leak and rejects a block that ran
-    without the product in place -/
+    without the product in place; the protocol model distinguishes the styles' intermediate states -/
 example : spec { entered := true, during := some .product, after := .orig } = true := by decide
 example : spec { entered := true, during := some .product, after := .product } = false := by decide
 example : spec { entered := true, during := some .orig, after := .orig } = false := by decide
 example : spec { entered := false, during := none, after := .orig } = true := by decide
+example : runCurrent .rejecting .startStopall = { entered := false, during := none, after := .orig } := by decide
+example : runCurrent .accepting .deco = { entered := true, during := some .product, after := .orig } := by decide
 
 end AsynqModel.Mock.EnterFail
